@@ -186,6 +186,10 @@ func (e *Engine) selectOp(st *State, sel *ssa.Select, recv *ssa.UnOp, cases []se
 		return true
 	}
 	// any ready case may be chosen: fork over all of them (the first continues on st)
+	if len(outs) > 1 {
+		// natively Go picks among ready cases at random: the vector alone does not steer the run
+		st.randomSelect = true
+	}
 	for k := 1; k < len(outs); k++ {
 		o := outs[k]
 		c := st.clone()
